@@ -2,6 +2,7 @@ package rules
 
 import (
 	"fmt"
+	"go/constant"
 	"go/token"
 	"go/types"
 	"sort"
@@ -438,6 +439,52 @@ func runC09(c *core.Ctx) {
 			name := core.RelPkg(im.Named.Obj().Pkg().Path()) + "." + im.Named.Obj().Name()
 			c.Check(consults, name+"#AssignString-enum-members", p.Pos(fn.Pos()), "the members of an enum are consulted before a string is stored", "AssignString stores the string into the bound Go value and never consults the members of an enum type: a string that is not a member is accepted (at the type level, as a struct field or as a map key) and the node cannot be read back at the representation level")
 		}
+	}
+
+	c.Rule("C09.shiftwidth", "a set kept in the bits of one machine word has room for every member: in node/bindnode and the basic node implementations, a shift by a variable amount (1 << i used as a membership bit) is dominated by an edge bounding the amount below the width of the word - in Go a shift by 64 or more gives 0, so the bit of the 65th field is never set and never found set: a repeated field there is accepted and a required one reported missing", 0)
+	for _, fn := range p.ModFns {
+		pk := core.FuncPkg(fn)
+		if pk == nil || len(fn.Blocks) == 0 || fn.Synthetic != "" {
+			continue
+		}
+		if rel := core.RelPkg(pk.Path()); rel != "node/bindnode" && rel != "node/basicnode" && rel != "datamodel" && rel != "schema" {
+			continue
+		}
+		n := 0
+		core.Instrs(fn, func(in ssa.Instruction) {
+			bo, ok := in.(*ssa.BinOp)
+			if !ok || bo.Op != token.SHL {
+				return
+			}
+			if _, isK := core.ConstInt(bo.Y); isK {
+				return
+			}
+			if one, isK := core.ConstInt(bo.X); !isK || one != 1 {
+				return // only the membership-bit idiom
+			}
+			n++
+			amount := core.Strip(bo.Y)
+			if cv, ok := amount.(*ssa.Convert); ok {
+				amount = core.Strip(cv.X)
+			}
+			bounded := false
+			for e := range core.EdgesWhere(fn, func(r core.Rel) bool {
+				x := core.Strip(r.X)
+				if cv, ok := x.(*ssa.Convert); ok {
+					x = core.Strip(cv.X)
+				}
+				if x != amount {
+					return false
+				}
+				ub, ok := r.UpperBoundConst()
+				return ok && constant.Compare(ub, token.LSS, constant.MakeInt64(64))
+			}) {
+				if core.EdgeDominates(e, bo.Block()) {
+					bounded = true
+				}
+			}
+			c.Check(bounded, fmt.Sprintf("%s#membership-bit%d", core.FuncKey(fn), n), p.Pos(bo.Pos()), "the shift amount is bounded below the word width", "1 << i with an i that was not found to be below 64 on this path: for the 65th member the bit is 0, so it is never recorded and never found - the set silently stops working for structs with more than 64 fields")
+		})
 	}
 
 	c.Rule("C09.splitexact", "a stringjoin struct is taken apart without a limit on the number of parts: where bindnode splits the representation string by the strategy's delimiter (GetDelim) it uses strings.Split (or SplitN with a negative count), so that the comparison of the number of parts with the number of fields sees surplus components and rejects them", 1)
